@@ -5,7 +5,9 @@ Domain (fault enumeration): for several small trees, B = the cache bytes a scan 
          write_text leaves); structural faults - file missing, empty, whitespace, not JSON, binary garbage, every JSON
          scalar / array / object as the whole document, deletion of the member at every key path, replacement of the
          value at every key path by each wrong-typed value among null, 0, "s", [], {}, 1.5, true (also inside the stored profile lists); cache directory without the file or
-         without its marker files; Hypothesis sequences of
+         without its marker files; REAL interrupted scans (a forked scan whose file writes fail with EFBIG after N bytes,
+         RLIMIT_FSIZE, for N across the cache length and below the marker files' sizes, with / without an existing
+         cache directory) followed by two further scans; Hypothesis sequences of
          (fault, scan, edit, fault, scan ...).
 Oracle : the scan completes (exit 0, no exception); the cache it leaves parses as JSON, is accepted by ReportReader and
          equals the from-scratch report of the same tree (uuid / timestamp dropped).
@@ -105,6 +107,8 @@ class Session:
             else:
                 node[last] = fault[2]
             self.cfile.write_text(json.dumps(doc, indent=2))
+        elif kind == "interrupt_write":
+            self.interrupted_scan(fault[1], fault[2])
         elif kind == "no_file":
             self.cfile.unlink()
         elif kind == "no_markers":
@@ -127,6 +131,24 @@ class Session:
             self.cdir.write_text("not a directory")
         else:
             raise ValueError(fault)
+
+    def interrupted_scan(self, limit, fresh_dir):
+        """A REAL interrupted scan: a forked child runs scan with RLIMIT_FSIZE = limit, so that its writes fail with EFBIG
+        after `limit` bytes (whichever file it is writing), exactly as on a full disk; whatever it leaves stays on disk."""
+        import resource
+        import signal
+
+        if fresh_dir and self.cdir.exists():
+            shutil.rmtree(self.cdir)
+        pid = os.fork()
+        if pid == 0:
+            try:
+                signal.signal(signal.SIGXFSZ, signal.SIG_IGN)
+                resource.setrlimit(resource.RLIMIT_FSIZE, (limit, limit))
+                cli.run_scan(self.root, ".")
+            finally:
+                os._exit(0)
+        os.waitpid(pid, 0)
 
     def scan_and_check(self, what):
         from codelimit.common.report.ReportReader import ReportReader
@@ -277,6 +299,35 @@ def structural(col, tname, part, nparts):
         s.close()
 
 
+def interrupted(col, tname, part, nparts, stride):
+    """Crash points of the real write path: a scan whose writes fail after N bytes, for N over the length of the cache
+    (and small N, which also hit the marker files), with and without an existing cache directory; then two more scans."""
+    files = TREES.get(tname, BIG)
+    s = Session(files)
+    try:
+        L = len(s.B)
+        limits = sorted(set(list(range(0, 80, 7)) + list(range(80, L + stride, stride)) + [L - 1, L, L + 1]))
+        n = nt = 0
+        for i, limit in enumerate(limits):
+            if i % nparts != part:
+                continue
+            for fresh_dir in (False, True):
+                fault = ("interrupt_write", limit, fresh_dir)
+                bad = run_fault(s, fault)
+                if not bad:
+                    bad = s.scan_and_check(f"second scan after {fault!r}")
+                n += 1
+                nt += 1
+                if bad:
+                    col.fail({"tree": tname, "steps": [list(fault), ["scan"]]}, bad[0], bad[1])
+                elif limit % 5 == 0:
+                    col.sample({"tree": tname, "fault": f"scan interrupted: writes fail after {limit} bytes (cache is {L} bytes), cache dir removed first: {fresh_dir}"}, force=len(col.samples) < 2)
+        col.bulk(n, nt)
+        col.label(f"interrupted-write:{tname}")
+    finally:
+        s.close()
+
+
 def gen_sequences(col, seed, n):
     names = sorted(TREES)
 
@@ -321,6 +372,9 @@ def plan(tier, seed):
     if not quick:
         for p in range(8):
             jobs.append(("truncations", {"tname": "big", "part": p, "nparts": 8, "stride": 7}))
+    for t in (["t1"] if quick else sorted(TREES)):
+        for p in range(2 if quick else 4):
+            jobs.append(("interrupted", {"tname": t, "part": p, "nparts": 2 if quick else 4, "stride": 97 if quick else 13}))
     for i in range(4):
         jobs.append(("gen_sequences", {"seed": shard_seed(seed, ID, i), "n": 15 if quick else 250}))
     return jobs
